@@ -27,7 +27,7 @@ var byzProductions = []string{
 	"tampered-payload", "tampered-signature", "stripped-signature", "extra-dots", "two-parts", "jws-json", "nested", "empty", "garbage", "whitespace",
 	"aud-absent", "aud-foreign", "aud-near-miss", "aud-array-without", "aud-substring",
 	"nonce-absent", "nonce-foreign", "nonce-empty", "nonce-previous", "other-session-token", "wrong-idp-key",
-	"nonce-number", "nonce-array", "nonce-object", "nonce-null", "nonce-bool", "other-filters-key",
+	"nonce-number", "nonce-array", "nonce-object", "nonce-null", "nonce-bool", "other-filters-key", "retired-key",
 }
 
 // productions whose token is honestly signed and acceptable on the refresh path (nonce is only
@@ -105,6 +105,23 @@ func byzantineAnswer(p *IdP, ans map[string]any, ch *chainRec, login bool) {
 		} else {
 			forged = SignJWT(ok, map[string]any{"kid": key.Kid}, claims) // under our kid
 		}
+	case "retired-key":
+		// honestly made by the provider's previous (or never published) signing key: whether the filter may accept it
+		// depends on the key set it is configured with - static set, or the published set once the fetcher has caught up
+		retired := p.Keys[1]
+		if p.Cur == 1 {
+			retired = p.Keys[0]
+		}
+		forged = SignJWT(retired, map[string]any{"kid": retired.Kid}, claims)
+		ans["id_token"] = forged
+		delete(p.issued, honest)
+		ch.LastID = forged
+		p.w.countFault("byz:" + prod)
+		p.issued[forged] = &issuedTok{Token: forged, Chain: ch.ID, Exp: p.issued_exp(forged), Kind: "id", knownExp: true, Key: retired}
+		if p.curTR != nil {
+			p.curTR.SignedBy = retired
+		}
+		return
 	case "wrong-idp-key":
 		// a key of another provider of the same deployment
 		forged = SignJWT(penv.ecKeys[(p.Cur+3)%len(penv.ecKeys)], map[string]any{"kid": key.Kid}, claims)
@@ -309,6 +326,39 @@ func genC02(r *Rng, tier string, idx int) *Plan {
 			Op{ID: nid(), Kind: "nav", B: 1, F: other, Path: t}, Op{ID: nid(), Kind: "send", B: 1, F: other, Path: t, S: "own"},
 			Op{ID: nid(), Kind: "idp", F: other, Args: map[string]string{"byz": "", "byz_on": "both"}},
 			Op{ID: nid(), Kind: "nav", B: 2, F: other, Path: t}, Op{ID: nid(), Kind: "send", B: 2, F: other, Path: t, S: "own"})
+		return p
+	}
+	if idx%5 == 3 && idx%2 == 0 {
+		// the provider retires a signing key; long after every fetch interval has passed an answer arrives whose ID token
+		// was made with the retired key (or, with a static key set, with a key that was never configured)
+		p.Mode = "retired-signing-key"
+		p.Spec = genSpec(r, genOpts{Filters: 1, AllowRedis: true})
+		f := &p.Spec.Filters[0]
+		f.JWKSFetch = r.Chance(0.7)
+		if f.JWKSFetch {
+			f.JWKSInterval = []int{0, 60, 600}[r.Intn(3)]
+		}
+		k := &p.Spec.IdPs[0].Knobs
+		k.Alg = "ES256"
+		k.Refresh = []string{"static", "rotate"}[r.Intn(2)]
+		k.IDTokenTTL, k.ExpiresIn, k.OmitExpiresIn = 300, 300, false
+		id := 0
+		nid := func() int { id++; return id }
+		t := genTarget(r)
+		p.Ops = append(p.Ops, Op{ID: nid(), Kind: "nav", B: 0, Path: t}, Op{ID: nid(), Kind: "send", B: 0, Path: t, S: "own"})
+		p.Ops = append(p.Ops, Op{ID: nid(), Kind: "rotate", S: r.Pick([]string{"publish", "publish", "keep-old"})})
+		// keep the session alive by refreshing while the key sets catch up (each step ends after the tokens' expiry)
+		steps := r.Range(9, 12)
+		for i := 0; i < steps; i++ {
+			p.Ops = append(p.Ops, Op{ID: nid(), Kind: "adv", D: 301}, Op{ID: nid(), Kind: "send", B: 0, Path: t, S: "own"})
+		}
+		on := r.Pick([]string{"login", "refresh"})
+		p.Ops = append(p.Ops, Op{ID: nid(), Kind: "idp", Args: map[string]string{"byz": "retired-key", "byz_on": on}})
+		if on == "login" {
+			p.Ops = append(p.Ops, Op{ID: nid(), Kind: "nav", B: 1, Path: t}, Op{ID: nid(), Kind: "send", B: 1, Path: t, S: "own"})
+		} else {
+			p.Ops = append(p.Ops, Op{ID: nid(), Kind: "adv", D: 301}, Op{ID: nid(), Kind: "send", B: 0, Path: t, S: "own"}, Op{ID: nid(), Kind: "send", B: 0, Path: t, S: "own"})
+		}
 		return p
 	}
 	p.Spec = genSpec(r, genOpts{Filters: 1, AllowRedis: true})
